@@ -126,7 +126,9 @@ func main() {
 		if tier != "thorough" {
 			tier = "quick"
 		}
-		os.Exit(runCheck(id, tier))
+		rc := runCheck(id, tier)
+		cleanupEphemeral()
+		os.Exit(rc)
 	}
 }
 
@@ -354,15 +356,21 @@ func buildWorker(flavour string, race bool) (string, error) {
 	}
 	out := filepath.Join(verifDir, "build", name+"-"+key)
 	if st, err := os.Stat(out); err == nil && st.Size() > 0 {
+		now := time.Now()
+		os.Chtimes(out, now, now) // in use: keeps it out of other processes' pruning
 		return out, nil
 	}
 	ov, err := genOverlay(flavour)
 	if err != nil {
 		return "", err
 	}
-	// remove stale binaries of this name
+	// remove stale binaries of this name; binaries touched in the last 3 hours may be in
+	// use by a concurrent vcheck (another tree, another tier) and are left alone
 	old, _ := filepath.Glob(filepath.Join(verifDir, "build", name+"-*"))
 	for _, o := range old {
+		if st, err := os.Stat(o); err != nil || time.Since(st.ModTime()) < 3*time.Hour {
+			continue
+		}
 		if !strings.Contains(filepath.Base(o), "-race-") || race {
 			if strings.HasPrefix(filepath.Base(o), name+"-") && (race || !strings.HasPrefix(filepath.Base(o), name+"-race")) {
 				os.Remove(o)
@@ -385,7 +393,21 @@ func buildWorker(flavour string, race bool) (string, error) {
 	if err := os.Rename(tmp, out); err != nil {
 		return "", err
 	}
+	builtHere = append(builtHere, out)
 	return out, nil
+}
+
+// builtHere lists the worker binaries this process built; with VERIF_EPHEMERAL set (scratch
+// trees of the self-test and of seeded changes) they are removed when the process ends.
+var builtHere []string
+
+func cleanupEphemeral() {
+	if os.Getenv("VERIF_EPHEMERAL") == "" {
+		return
+	}
+	for _, b := range builtHere {
+		os.Remove(b)
+	}
 }
 
 // ---------------------------------------------------------------- running
@@ -396,6 +418,7 @@ type checkMeta struct {
 	Shards  int      `json:"shards"`
 	Level   string   `json:"level"`
 	Also    []string `json:"also"` // further parts of the same check, possibly in another build flavour
+	RaceBuild bool   `json:"race_build"`
 }
 
 func workerMeta(bin, id, tier string) (checkMeta, error) {
@@ -432,8 +455,25 @@ func runShards(bin, id, tier string, n int, extra ...string) ([]ShardResult, err
 			errFile, _ := os.Create(filepath.Join(runDir, fmt.Sprintf("shard-%d.err", i)))
 			cmd.Stderr = errFile
 			cmd.Stdout = errFile
+			raceLog := filepath.Join(runDir, fmt.Sprintf("race-%d", i))
+			if strings.Contains(filepath.Base(bin), "-race") {
+				if cmd.Env == nil {
+					cmd.Env = os.Environ()
+				}
+				cmd.Env = append(cmd.Env, "GORACE=log_path="+raceLog+" halt_on_error=0 exitcode=0 history_size=3")
+			}
 			err := cmd.Run()
 			errFile.Close()
+			defer func() {
+				// every report of the race detector is a violation (it has no false positives)
+				logs, _ := filepath.Glob(raceLog + ".*")
+				for _, lf := range logs {
+					b, _ := os.ReadFile(lf)
+					for _, v := range raceViolations(id, b) {
+						res[i].Violations = append(res[i].Violations, v)
+					}
+				}
+			}()
 			b, rerr := os.ReadFile(out)
 			if rerr != nil {
 				tail, _ := os.ReadFile(filepath.Join(runDir, fmt.Sprintf("shard-%d.err", i)))
@@ -475,6 +515,82 @@ func runShards(bin, id, tier string, n int, extra ...string) ([]ShardResult, err
 		}
 	}
 	return res, nil
+}
+
+// raceViolations turns the race detector's reports into violations. The signature names the
+// innermost repository function (not harness, not runtime) of each of the two accesses.
+func raceViolations(id string, log []byte) []Violation {
+	prop := id
+	if i := strings.IndexByte(prop, '.'); i > 0 {
+		prop = prop[:i]
+	}
+	var out []Violation
+	seen := map[string]bool{}
+	for _, blk := range strings.Split(string(log), "WARNING: DATA RACE")[1:] {
+		if i := strings.Index(blk, "=================="); i >= 0 {
+			blk = blk[:i]
+		}
+		var sides []string
+		var cur string
+		curSet := false
+		flush := func() {
+			if curSet {
+				sides = append(sides, cur)
+			}
+			curSet = false
+		}
+		lines := strings.Split(blk, "\n")
+		for li := 0; li < len(lines); li++ {
+			l := strings.TrimSpace(lines[li])
+			switch {
+			case strings.HasPrefix(l, "Write at"), strings.HasPrefix(l, "Read at"), strings.HasPrefix(l, "Previous write at"), strings.HasPrefix(l, "Previous read at"),
+				strings.HasPrefix(l, "Atomic write at"), strings.HasPrefix(l, "Previous atomic"):
+				flush()
+				kind := "read"
+				if strings.Contains(strings.ToLower(l), "write") {
+					kind = "write"
+				}
+				cur, curSet = kind+":?", true
+			case strings.HasPrefix(l, "Goroutine "), strings.HasPrefix(l, "Mutex "):
+				flush()
+			case curSet && strings.HasSuffix(cur, ":?") && strings.HasPrefix(l, "github.com/absfs/absnfs."):
+				// the next line holds the file
+				file := ""
+				if li+1 < len(lines) {
+					file = strings.TrimSpace(lines[li+1])
+				}
+				if strings.Contains(file, "zz_verif_") || strings.Contains(file, "/internal/verif/") {
+					continue
+				}
+				fn := strings.TrimPrefix(l, "github.com/absfs/absnfs.")
+				if j := strings.Index(fn, "("); j >= 0 && strings.HasSuffix(fn, ")") && !strings.HasPrefix(fn, "(") {
+					fn = fn[:strings.LastIndex(fn, "(")]
+				} else if strings.HasSuffix(fn, "()") {
+					fn = strings.TrimSuffix(fn, "()")
+				}
+				cur = strings.TrimSuffix(cur, "?") + fn
+			}
+		}
+		flush()
+		if len(sides) < 2 {
+			continue
+		}
+		pair := []string{sides[0], sides[1]}
+		sort.Strings(pair)
+		if strings.HasSuffix(pair[0], ":?") && strings.HasSuffix(pair[1], ":?") {
+			continue // both accesses are in the harness itself
+		}
+		sig := prop + "|data-race|" + pair[0] + "|" + pair[1]
+		if seen[sig] {
+			continue
+		}
+		seen[sig] = true
+		if len(blk) > 3000 {
+			blk = blk[:3000]
+		}
+		out = append(out, Violation{Sig: sig, Msg: "the race detector reports unsynchronised accesses:" + blk, Replay: json.RawMessage(`{"scenario":""}`)})
+	}
+	return out
 }
 
 func merge(rs []ShardResult) ShardResult {
@@ -617,8 +733,8 @@ func runCheck(id, tier string) int {
 		return 2
 	}
 	bin := probe
-	if meta.Flavour != "vtime" {
-		bin, err = buildWorker(meta.Flavour, false)
+	if meta.Flavour != "vtime" || meta.RaceBuild {
+		bin, err = buildWorker(meta.Flavour, meta.RaceBuild)
 		if err != nil {
 			fmt.Fprintf(os.Stderr, "vcheck: build error (infrastructure, not a verdict):\n%v\n", err)
 			return 2
@@ -642,7 +758,7 @@ func runCheck(id, tier string) int {
 			fmt.Fprintf(os.Stderr, "vcheck: %v\n", err)
 			return 2
 		}
-		sbin, err := buildWorker(sm.Flavour, false)
+		sbin, err := buildWorker(sm.Flavour, sm.RaceBuild)
 		if err != nil {
 			fmt.Fprintf(os.Stderr, "vcheck: build error (infrastructure, not a verdict):\n%v\n", err)
 			return 2
@@ -755,7 +871,7 @@ func runCheck(id, tier string) int {
 		if strings.Contains(nv.v.Sig, "|process-crash|") {
 			ok1, sig1 = replayCrash(bin, id, path, nv.v.Sig)
 			ok2, sig2 = replayCrash(bin, id, path, nv.v.Sig)
-		} else if !strings.HasSuffix(nv.v.Sig, "|no-progress") { // a hang is not re-run
+		} else if !strings.HasSuffix(nv.v.Sig, "|no-progress") && !strings.Contains(nv.v.Sig, "|data-race|") { // a hang is not re-run; a race is a sampled observation
 			ok1, sig1 = replayOnce(bin, id, path)
 			ok2, sig2 = replayOnce(bin, id, path)
 		}
